@@ -18,6 +18,9 @@ pub struct Case {
     /// "sequential" | "interleaved" | "weighted"
     pub strategy: String,
     pub seed: u64,
+    /// seed = None (OS entropy): everything but the reproducibility of the weighted order is judged
+    #[serde(default)]
+    pub no_seed: bool,
 }
 
 /// one yielded element: (reported source index, tag, was an Err)
@@ -64,7 +67,7 @@ fn build(c: &Case) -> Vec<TrainDataGenerator> {
 /// Err(message): the constructor refused the sources
 fn run(c: &Case, seed: u64) -> Result<Run, String> {
     let total: usize = c.sources.iter().map(|s| s.len()).sum();
-    let mut g = MultiTrainDataGenerator::new(build(c), strategy_of(c), Some(seed))
+    let mut g = MultiTrainDataGenerator::new(build(c), strategy_of(c), if c.no_seed { None } else { Some(seed) })
         .map_err(|e| format!("{e}"))?;
     let len = g.len();
     let mut out = vec![];
@@ -213,7 +216,7 @@ impl Prop for C07 {
 
     fn assumptions() -> Vec<&'static str> {
         vec![
-            "seed = None (OS entropy) is not run; reproducibility is judged for Some(seed) only",
+            "seed = None (OS entropy) is run in 2.5% of the cases: exactly-once, order within a source, source index and termination are judged as always, reproducibility of the weighted order only for Some(seed) (a violation found there may not replay)",
             "sources are fused ExactSizeIterators whose len() is exact (vec::IntoIter); sources that under- or over-report their length are outside the statement",
             "weighted + an empty source: an Err from the constructor is documented behaviour and not judged; if the constructor accepts, the run is judged like any other",
             "the empty list of sources is generated with probability 1/200",
@@ -247,6 +250,7 @@ impl Prop for C07 {
             sources,
             strategy: strategy.to_string(),
             seed,
+            no_seed: rng.random_range(0..40) == 0,
         }
     }
 
@@ -262,6 +266,7 @@ impl Prop for C07 {
             _ => "strategy:weighted",
         });
         obs.tag_if(n == 1, "single-source");
+        obs.tag_if(c.no_seed, "seed-none");
         obs.tag_if(n == 0, "no-sources");
         obs.tag_if(lens.contains(&0), "empty-source");
         obs.tag_if(n >= 2 && lens[0] == 0, "leading-empty-source");
@@ -368,7 +373,7 @@ impl Prop for C07 {
             }
             _ => {
                 if let Some(Ok(r2)) = guarded(obs, strat, || run(c, c.seed)) {
-                    obs.check(r2.out == r.out, "weighted/not-reproducible", || {
+                    obs.check(c.no_seed || r2.out == r.out, "weighted/not-reproducible", || {
                         format!("second run with the same seed yielded {:?}; {}", r2.out, describe())
                     });
                 }
